@@ -597,7 +597,12 @@ def WPc.inFin : WPc → Bool
 
 /-- the worker has not yet entered the source -/
 def WPc.early : WPc → Bool
-  | .newObs | .sub0 | .sub1 | .sub2 => true
+  | .newObs | .rchk0 | .rchk1 | .rchk2 | .rrem | .ruc0 | .ruc1 | .ruc2 | .sub0 | .sub1 | .sub2 => true
+  | _ => false
+
+/-- `new_observer` found the subscription ended and is detaching the upstream it has just registered -/
+def WPc.detach : WPc → Bool
+  | .rrem | .ruc0 | .ruc1 | .ruc2 => true
   | _ => false
 
 structure InvSa (s : State) : Prop where
@@ -653,12 +658,14 @@ theorem invS_src {s s' : State} {k : Kind} (h : InvS s) (hs : srcStep s k = some
   all_goals constructor
   so_invS_tac
 
+set_option maxHeartbeats 1000000 in
 theorem invSa_wrk {s s' : State} {k : Kind} (h : InvS s) (hs : wrkStep s k = some s') : InvSa s' := by
   obtain ⟨⟨h1, h2, h3, h4, h5, h6, h7, h8, h9, h10, h11, h12, h13, h14⟩,
     ⟨h15, h16, h17, h18, h19, h20, h21, h22, h23, h24, h25, h26, h27, h28, h29⟩⟩ := h
   so_cases hs
   so_invS_tac
 
+set_option maxHeartbeats 1000000 in
 theorem invSb_wrk {s s' : State} {k : Kind} (h : InvS s) (hs : wrkStep s k = some s') : InvSb s' := by
   obtain ⟨⟨h1, h2, h3, h4, h5, h6, h7, h8, h9, h10, h11, h12, h13, h14⟩,
     ⟨h15, h16, h17, h18, h19, h20, h21, h22, h23, h24, h25, h26, h27, h28, h29⟩⟩ := h
@@ -704,18 +711,19 @@ structure InvQ (s : State) : Prop where
     s.sNext = false ∨ (s.wpc.tflight = true ∧ s.wcur.isTerminal = true)
   q2 : (s.wpc = .uTakeOwn ∧ s.ownUp s.wcur = false) → s.sNext = false
   q3 : (s.wpc = .uClrOther ∧ (s.upErr = false ∨ s.upCompl = false)) → s.sNext = false
+  q4 : s.wpc.detach = true → s.sNext = false
 
 theorem invQ_init (cfg : Config) : InvQ (init cfg) := by
-  constructor <;> simp [init]
+  constructor <;> simp [init, WPc.detach]
 
 macro "so_invQ_tac" : tactic => `(tactic| (
   all_goals
     constructor <;> dsimp only <;> first | assumption |
-    grind [State.ownUp, WPc.tflight, WPc.claiming, WPc.inFin, UPc.began, Ev.isTerminal, Ev.isTerminal_eq, Ev.isErr,
+    grind [State.ownUp, WPc.tflight, WPc.detach, WPc.claiming, WPc.inFin, UPc.began, Ev.isTerminal, Ev.isTerminal_eq, Ev.isErr,
       Ev.isCompl, Ev.not_both]))
 
 theorem invQ_step {s s' : State} {l : Label} (h : InvQ s) (hS : InvS s) (hs : step s l = some s') : InvQ s' := by
-  obtain ⟨h5, h6, h7⟩ := h
+  obtain ⟨h5, h6, h7, h8⟩ := h
   obtain ⟨⟨g1, g2, g3, -, -, g6, -, -, g9, -, -, -, -, -⟩, -⟩ := hS
   rcases step_split hs with hs | hs | hs
   · so_cases hs
@@ -750,7 +758,7 @@ theorem invP_step {cfg : Config} {s s' : State} {l : Label} (h : InvP cfg s) (hS
     (hs : step s l = some s') : InvP cfg s' := by
   obtain ⟨h1, h2, h3, h4⟩ := h
   obtain ⟨⟨g1, g2, g3, -, -, -, -, -, g9, -, -, -, -, -⟩, -⟩ := hS
-  obtain ⟨q1, q2, -⟩ := hQ
+  obtain ⟨q1, q2, -, -⟩ := hQ
   rcases step_split hs with hs | hs | hs
   · so_cases hs
     so_invP_tac
@@ -807,18 +815,20 @@ structure InvE (s : State) : Prop where
   skip1 : s.skipped = true → s.unsubBegan = true
   e4 : s.termStarted = true → ∃ e ∈ s.delivered, e.isTerminal = true
   e5 : (s.unsubBegan = true ∧ s.unsubEarly = false) → s.termStarted = true
+  rdead : s.wpc.detach = true → s.unsubBegan = true
 
 theorem invE_init (cfg : Config) (hw : wf cfg.script = true) : InvE (init cfg) := by
-  constructor <;> simp [init, hw, WPc.early]
+  constructor <;> simp [init, hw, WPc.early, WPc.detach]
 
 macro "so_invE_tac" : tactic => `(tactic| (
   all_goals
     constructor <;> dsimp only <;> first | assumption |
-    grind [WPc.early, WPc.claiming, WPc.inFin, UPc.began, Ev.isTerminal_eq, wf_tail, wf_term]))
+    grind [WPc.early, WPc.detach, WPc.claiming, WPc.inFin, UPc.began, Ev.isTerminal_eq, wf_tail, wf_term]))
 
+set_option maxHeartbeats 1000000 in
 theorem invE_step {s s' : State} {l : Label} (h : InvE s) (hS : InvS s) (hs : step s l = some s') : InvE s' := by
-  obtain ⟨h1, h2, h3, h4, h5, h6, h7, h8, h9⟩ := h
-  obtain ⟨⟨-, -, g3, g4, -, -, -, -, -, -, -, -, -, -⟩, ⟨-, g16, -, g18, g19, -, -, -, -, -, -, -, -, -, -⟩⟩ := hS
+  obtain ⟨h1, h2, h3, h4, h5, h6, h7, h8, h9, h10⟩ := h
+  obtain ⟨⟨g1, -, g3, g4, -, -, -, -, -, -, -, g12, -, -⟩, ⟨-, g16, -, g18, g19, -, -, -, -, -, -, -, -, -, -⟩⟩ := hS
   rcases step_split hs with hs | hs | hs
   · so_cases hs
     so_invE_tac
@@ -957,12 +967,73 @@ theorem subscribe_on_finalize_never_nested {cfg : Config} {s : State} (h : Reach
     s.wpc ≠ .fin .nested ∧ s.upc ≠ .fin .nested :=
   (invS_reachable h).2.nonest
 
+/-! ### the re-check of `new_observer`: an upstream attached after the subscription ended is never started -/
+
+structure InvA (s : State) : Prop where
+  a1 : s.lateAttach = true → s.sNext = false ∧ s.consumed = [] ∧ s.delivered = [] ∧ s.queued = false
+  a2 : s.lateAttach = true → (s.wpc = .rchk0 ∨ s.wpc.detach = true ∨ s.wpc = .sub0 ∨
+    ((s.wpc = .take ∨ s.wpc = .done) ∧ s.taskDone = true ∧ s.skipped = true))
+  a3 : (s.wpc = .ruc1 ∨ s.wpc = .ruc2 ∨ (s.wpc = .sub0 ∧ s.lateAttach = true)) → s.upNext = false
+  a4 : s.posted = false → s.queued = false ∧ (s.wpc = .take ∨ s.wpc = .done) ∧ s.lateAttach = false ∧ s.taskDone = false
+  a5 : s.queued = true → (s.wpc = .take ∨ s.wpc = .done) ∧ s.taskDone = false
+  a6 : s.wpc = .newObs → s.consumed = [] ∧ s.delivered = []
+  a7 : ((s.wpc = .take ∨ s.wpc = .done) ∧ s.taskDone = false) → s.consumed = [] ∧ s.delivered = []
+
+theorem invA_init (cfg : Config) : InvA (init cfg) := by
+  constructor <;> simp [init, WPc.detach]
+
+macro "so_invA_tac" : tactic => `(tactic| (
+  all_goals
+    constructor <;> dsimp only <;> first | assumption |
+    grind [WPc.detach, UPc.began]))
+
+set_option maxHeartbeats 1000000 in
+theorem invA_step {s s' : State} {l : Label} (h : InvA s) (hS : InvS s) (hs : step s l = some s') : InvA s' := by
+  obtain ⟨h1, h2, h3, h4, h5, h6, h7⟩ := h
+  obtain ⟨-, ⟨-, -, -, -, -, -, -, -, -, -, g25, -, -, -, -⟩⟩ := hS
+  rcases step_split hs with hs | hs | hs
+  · so_cases hs
+    so_invA_tac
+  · so_cases hs
+    so_invA_tac
+  · so_cases hs
+    so_invA_tac
+
+theorem invA_reachable {cfg : Config} {s : State} (h : Reachable cfg s) : InvA s := by
+  induction h with
+  | init => exact invA_init cfg
+  | step hr hs ih => exact invA_step ih (invS_reachable hr) hs
+
+/-- **C09 / subscribe_on, late attach (stream_controller.rs 76-89).**  If the unsubscriber had already cleared the
+subscriber's `fn_next` (in particular: if `unsubscribe()` had already returned) when the subscription task registered
+the upstream in `new_observer`, the source is never started: nothing is ever consumed from the script, nothing is
+delivered, and the worker never stands inside the source.  (Before the re-check was added to `new_observer` this was
+false of the code: `finalize` had already walked the table, the fresh observer stayed subscribed and a synchronous
+source ran to its end on the worker.) -/
+theorem subscribe_on_late_attach_never_starts {cfg : Config} {s : State} (h : Reachable cfg s)
+    (hl : s.lateAttach = true) :
+    s.consumed = [] ∧ s.delivered = [] ∧ cbStarts s.log = [] ∧ s.wpc ≠ .src := by
+  have hA := invA_reachable h
+  obtain ⟨-, hc, hd, -⟩ := hA.a1 hl
+  refine ⟨hc, hd, (invL_reachable h).dlog ▸ hd, ?_⟩
+  rcases hA.a2 hl with h' | h' | h' | ⟨h' | h', -⟩ <;> intro hw <;> simp [hw, WPc.detach] at h'
+
+/-- `lateAttach` is set exactly by an unsubscribe that began before the registration; after `unsubscribe()` returned it
+is the only way the task can go -/
+theorem late_attach_of_unsub_returned {s s' : State} (hS : InvS s) (hr : s.unsubReturned = true)
+    (hs : wrkStep s .task = some s') (hw : s.wpc = .newObs) : s'.lateAttach = true := by
+  have hb : s.unsubBegan = true := by rw [hS.1.ubegan, hr]; simp
+  simp only [wrkStep, hw] at hs
+  simp only [Option.some.injEq] at hs
+  subst hs
+  exact hb
+
 /-! ### non-vacuity -/
 
 def exCfg : Config := { script := (Script.mk [.int 1] (.error 3)).events, hasUnsub := false }
 
 def exRun : List Label := mk
-  [(0, .post), (1, .take), (1, .task), (1, .chk), (1, .chk), (1, .chk),
+  [(0, .post), (1, .take), (1, .task), (1, .chk), (1, .chk), (1, .chk), (1, .chk), (1, .chk), (1, .chk),
    (1, .emit), (1, .chk), (1, .chk), (1, .chk), (1, .fetch), (1, .cbStart), (1, .cbReturn),
    (1, .emit), (1, .clrOther), (1, .takeOwn), (1, .chk), (1, .chk), (1, .chk), (1, .claim), (1, .clrOther),
    (1, .takeOwn), (1, .cbStart), (1, .cbReturn), (1, .fIter), (1, .fUp), (1, .fUp), (1, .fUp), (1, .fClear),
@@ -984,6 +1055,18 @@ example : Reachable exCfg2 exState2 ∧ exState2.unsubReturned = true ∧ exStat
     exState2.consumed = [] ∧ exState2.wpc = .done :=
   ⟨reachable_of_replay (ls := exRun2) rfl, by decide, by decide, by decide, by decide⟩
 
+/-- witness: the unsubscriber clears `fn_next` between the worker's `take` and `new_observer`; the re-check fails, the
+entry is removed, the fresh observer is unsubscribed, `inner_subscribe` skips the source -/
+def exCfg3 : Config := { script := (Script.mk [.int 1] .complete).events, hasUnsub := true }
+def exRun3 : List Label := mk
+  [(0, .post), (1, .take), (2, .unsubCall), (2, .clr), (1, .task), (1, .chk), (1, .remove), (1, .fUp), (1, .fUp),
+   (1, .fUp), (1, .chk), (2, .clr), (2, .clr), (2, .onUnsub), (2, .fIter), (2, .fClear), (2, .fChk), (2, .fLock),
+   (2, .fStop), (2, .fUnlock), (2, .unsubRet), (1, .exit)]
+def exState3 : State := (replay exCfg3 exRun3).getD default
+example : Reachable exCfg3 exState3 ∧ exState3.lateAttach = true ∧ exState3.skipped = true ∧
+    exState3.consumed = [] ∧ exState3.taskDone = true ∧ exState3.wpc = .done ∧ exState3.unsubReturned = true :=
+  ⟨reachable_of_replay (ls := exRun3) rfl, by decide, by decide, by decide, by decide, by decide, by decide⟩
+
 end Rx.Handoff.SubOn
 
 /-! ## Axioms -/
@@ -1004,3 +1087,5 @@ end Rx.Handoff.SubOn
 #print axioms Rx.Handoff.SubOn.subscribe_on_abort_only_after_end
 #print axioms Rx.Handoff.SubOn.subscribe_on_after_unsub_nothing
 #print axioms Rx.Handoff.SubOn.subscribe_on_finalize_never_nested
+#print axioms Rx.Handoff.SubOn.subscribe_on_late_attach_never_starts
+#print axioms Rx.Handoff.SubOn.late_attach_of_unsub_returned
